@@ -11,7 +11,10 @@ A dimension link is built by several functions that hand the `index` argument on
 to h5py (which refuses entries it cannot store).  A refused call leaves the dimension alone only if everything
 the late validations ask for has been asked before the first write — for every *spelling* of the index: a list,
 a tuple, an ndarray (no `count`, not a `Sequence`), a duck-typed container, entries that compare like integers
-but are not numbers (`Fraction(-1)`).
+but are not numbers (`Fraction(-1)`).  The *object* to be linked can be refused as well: `H5Group.create_link`
+refuses an object of another open file (HDF5 has no hard links between files), in the middle of
+`DimensionLink.create_new`; `link_data_array` / `link_data_frame` therefore test the object's file with their
+other pre-checks (`Guard.sameFile`).
 
 The functions are step lists (`Generated/LinkOrder.lean`, rendered from the source in statement order, callees
 inlined) run by the machine below.  The index is abstract: what the container can do (`len`, iteration, `count`,
@@ -53,6 +56,7 @@ structure Call where
   targetCols : Nat
   now : Nat
   newId : Nat
+  otherFile : Bool := false   -- the object to be linked lives in ANOTHER open file
   deriving DecidableEq, Repr, Inhabited
 
 inductive Guard where
@@ -64,6 +68,7 @@ inductive Guard where
   | oneNegative     -- `sum(idx < 0 for idx in index) != 1`
   | colIsInt        -- `util.check_attr_type(index, int)`
   | colInRange      -- `not 0 <= index < len(data_frame.columns)` → OutOfBounds
+  | sameFile        -- `<obj>._h5group.group.file != self._h5group.group.file` → ValueError
   deriving DecidableEq, Repr, Inhabited
 
 def count (p : Entry → Bool) (es : List Entry) : Nat := (es.filter p).length
@@ -91,13 +96,17 @@ def Guard.check (c : Call) : Guard → Option Err
   | .colInRange =>
     if !c.col.isInt then some .typeError
     else if 0 ≤ c.col.val ∧ c.col.val < (c.targetCols : Int) then none else some .outOfBounds
+  | .sameFile => if c.otherFile then some .valueError else none
 
 inductive Step where
   | guard (g : Guard)
   | removeLinkIfAny        -- `if self.has_link: self.remove_link()`
   | openLinkGroup          -- `h5parent.open_group("link", True)`; `set_attr("entity_id", id_)`
   | setDotype (isArray : Bool)
-  | createTargetLink       -- `create_link(dataobj, dataobj.id)`
+  | createTargetLink       -- `create_link(dataobj, dataobj.id)`: refuses an object of another file (HDF5 has no
+                           -- hard links between files; ValueError since nixio 16b3ce3)
+  | createSelfLink         -- the same with the array that owns the descriptor as the object
+                           -- (`rdim.link_data_array(self, index)`): it lives in the file of its descriptor
   | setIndexAttr           -- `set_attr("index", list(index))`: h5py refuses entries it cannot store
   | setColAttr             -- `set_attr("index", index)` for a frame column
   | setCreated
@@ -135,14 +144,16 @@ structure File where
 def File.mapLink (f : File) (g : Link → Link) : File :=
   { f with dim := f.dim.map fun d => { d with link := d.link.map g } }
 
-/-- one statement; `none` = no error.  Only `.guard`, `.setIndexAttr`, `.setColAttr` can raise; an error leaves
-the file as the statement found it. -/
+/-- one statement; `none` = no error.  Only `.guard`, `.createTargetLink`, `.setIndexAttr`, `.setColAttr` can raise;
+an error leaves the file as the statement found it. -/
 def step (c : Call) (f : File) : Step → File × Option Err
   | .guard g => (f, g.check c)
   | .removeLinkIfAny => ({ f with dim := f.dim.map fun d => { d with link := none } }, none)
   | .openLinkGroup => ({ f with dim := f.dim.map fun d => { d with link := some { id := c.newId } } }, none)
   | .setDotype a => (f.mapLink fun l => { l with isArray := some a }, none)
-  | .createTargetLink => (f.mapLink fun l => { l with target := some c.target }, none)
+  | .createTargetLink =>
+    if c.otherFile then (f, some .valueError) else (f.mapLink fun l => { l with target := some c.target }, none)
+  | .createSelfLink => (f.mapLink fun l => { l with target := some c.target }, none)
   | .setIndexAttr =>
     if c.idx.iterable && c.idx.entries.all (·.storable) then
       (f.mapLink fun l => { l with index := some c.idx.entries }, none)
@@ -167,6 +178,7 @@ def run (c : Call) : List Step → File → File × Option Err
 /-- the guards a statement needs to have been passed before it may follow a write -/
 def Step.needs : Step → List Guard
   | .guard g => [g]
+  | .createTargetLink => [.sameFile]
   | .setIndexAttr => [.entriesStorable]
   | .setColAttr => [.colIsInt]
   | _ => []
